@@ -19,7 +19,9 @@ LEVEL_TEXT = ("Unbounded proof over all element trees: component names are compl
               "action and the LAUNCHER category; the permission list holds every declared name exactly once; the effective "
               "target SDK is target, else min, else 1. The other getters (package, version, SDK values, services, receivers, "
               "providers, features, libraries) are definitional lookups in the model; all sixteen observations are compared "
-              "with the real APK object, and with the manifest description, on every run.")
+              "with the real APK object, and with the manifest description, on every run. Composition with C26: for the "
+              "binary XML of a manifest (any element tree with attributes and namespaces, names that are XML names as they "
+              "stand, no resource map) the queries are answered on exactly the tree the bytes encode.")
 LEVEL_NOTE = ("Trusted: Coq kernel; coq/Apk/ManifestModel.v as a rendering of _apk_analysis and the getters (lxml findall as "
               "document-order descendants; results that the code collects through sets are compared as sorted lists; int() as "
               "sign and ASCII digits); the tree handed to the model is the one the real AXMLPrinter produced for the case "
